@@ -484,6 +484,12 @@ def case(draw, with_links=True, max_res=8, mixed_nrexcl=False, routes=("json", "
                     if [tuple(i["atoms"]) for i in blk["inter"] if i["sec"] == sec].count(tuple(idxs)):
                         continue
                     blk["inter"].append(draw(interaction(sec, idxs, guard_ok=False)))
+                # the same dangling atoms listed once more further down in the section, after another dangling
+                # line (the later definition is the one that counts)
+                for sec in ("bonds", "angles"):
+                    dang = [i for i in blk["inter"] if i["sec"] == sec and any(a >= nat for a in i["atoms"])]
+                    if len(dang) >= 2 and draw(st.booleans()):
+                        blk["inter"].append(draw(interaction(sec, list(dang[0]["atoms"]), guard_ok=False)))
     # files: .ff blocks + links in one or two ff files, each itp block in its own file
     ff_blocks = [i for i, b in enumerate(blocks) if b["syntax"] == "ff"]
     itp_blocks = [i for i, b in enumerate(blocks) if b["syntax"] == "itp"]
